@@ -73,7 +73,8 @@ JShdrEnc(e) ==
   LET enc == IF e.kind = "wt" THEN VarintEnc(V(84)) \o VarintEnc(e.sid) ELSE <<0>> IN
   CASE e.api = "vec" ->
          /\ e.res = "ok" /\ e.bytes = enc /\ e.size = Len(enc)
-         /\ e.rt.kind = e.kind /\ e.rt.sid = e.sid /\ e.rt.used = Len(enc)
+         /\ HasF(e, "rt") /\ e.rt.kind = e.kind /\ e.rt.sid = e.sid /\ e.rt.used = Len(enc)
+         /\ HasF(e, "rta") /\ e.rta = e.rt
     [] e.api = "tobuf" ->
          IF e.cap < Len(enc) THEN e.res = "eob" /\ e.written = 0 /\ e.untouched
          ELSE e.res = "ok" /\ e.written = Len(enc) /\ e.bytes = enc /\ e.untouched
